@@ -287,6 +287,41 @@ func propC02(c *ctx) error {
 			}
 		}
 	}
+	// ---- literal/${} mixtures whose LITERAL part carries HTML-special characters or spells a character reference: the
+	// whole evaluated string is escaped, not only the block results
+	{
+		type mix struct{ tpl, pre, post, wantPre, wantPost string }
+		mixes := []mix{
+			{`<p :text="<b>${s}</b> &amp; x">o</p>`, "<b>", "</b> &amp; x", "<p>", "</p>"},
+			{`<p :text='say "hi" to ${s} &lt;'>o</p>`, `say "hi" to `, ` &lt;`, "<p>", "</p>"},
+			{`<a :title='say "hi" to ${s}!' id=k>x</a>`, `say "hi" to `, `!`, `<a title="`, `" id=k>x</a>`},
+			{`<a :href="?a=1&amp;b=${s}&c" id=k>x</a>`, `?a=1&amp;b=`, `&c`, `<a href="`, `" id=k>x</a>`},
+			{`<a :title="it's ${s} > 1" id=k>x</a>`, `it's `, ` > 1`, `<a title="`, `" id=k>x</a>`},
+		}
+		for _, mx := range mixes {
+			for _, sv := range []string{"x", "<i>", "&", "\"", "", "a&amp;b"} {
+				rc := &renderCase{Files: [][2]string{{"t", mx.tpl}}, Tpl: "t", Data: vMap(kv{"s", vStr(sv)}).j}
+				want := mx.wantPre + html.EscapeString(mx.pre+sv+mx.post) + mx.wantPost
+				var out renderOut
+				if c.d != nil {
+					o, _, err := compareRender(c, rc, true)
+					if err != nil {
+						return err
+					}
+					out = o
+				} else {
+					out = implRender(rc, -1)
+				}
+				res.eval("mix|"+mx.tpl+"|"+sv, true, J{"tpl": mx.tpl, "s": sv})
+				res.S3Checked++
+				res.count("literal_part_cases")
+				if out.St != "ok" || out.text() != want {
+					res.violate(rc.toJ(), want, J{"st": out.St, "out": out.text(), "err": trunc(out.Err, 120)},
+						"a literal/block mixture is not emitted as the escape of the WHOLE evaluated string")
+				}
+			}
+		}
+	}
 	// ---- attribute NAMES x word-like values: the attribute is emitted with the escaped value whatever its name means
 	// to a browser (boolean attributes, event handlers, URLs, style) and whatever the value spells (false, null, …);
 	// alone, over a static attribute of the same name with a value, and over a VALUELESS static one
